@@ -52,7 +52,7 @@ func expFlits(bytes, flit int, ovNum, ovShift int) int {
 
 func genC29(rt *rapid.T) c29Case {
 	c := genC29Sized(rt, c29FlitBudget, 300)
-	if rapid.IntRange(0, c29CkptOneIn-1).Draw(rt, "ckpt") == 0 {
+	if n := ckptOneIn(); n > 0 && rapid.IntRange(0, n-1).Draw(rt, "ckpt") == 0 {
 		c.Ckpt = &ckptSpec{
 			Mode:  rapid.SampledFrom([]string{"reassembly", "reassembly", "reassembly", "any"}).Draw(rt, "cutMode"),
 			Sel:   rapid.IntRange(0, 999).Draw(rt, "cutSel"),
